@@ -25,6 +25,9 @@ type thProg struct {
 	Script   []string `json:"script"` // call cancel adv<d>
 	NT       int      `json:"nt"`
 	NN       int      `json:"nn"`
+	// Unit "us": the period and the clock jumps are microseconds (a period that is not a whole number of
+	// milliseconds), otherwise milliseconds
+	Unit string `json:"unit,omitempty"`
 }
 
 type thSched struct {
@@ -37,8 +40,12 @@ func thBodies(p thProg, ev *[]tt.Op) []func() {
 	vtime.Enable(false)
 	// every jump of the clock is an event of its own, logged when it happens: a timer callback
 	// may hand the baton to other threads in the middle of an Advance
-	vtime.OnJump = func(d time.Duration) { logEv(ev, op("adv", int(d/time.Millisecond))) }
-	th := gogu.NewThrottle(time.Duration(p.Per)*time.Millisecond, p.Trailing == 1)
+	unit := time.Millisecond
+	if p.Unit == "us" {
+		unit = time.Microsecond
+	}
+	vtime.OnJump = func(d time.Duration) { logEv(ev, op("adv", int(d/unit))) }
+	th := gogu.NewThrottle(time.Duration(p.Per)*unit, p.Trailing == 1)
 	thRelease = func() { th.Cancel() }
 	logEv(ev, op("new", p.Per, p.Trailing))
 	bodies := []func(){func() {
@@ -55,7 +62,7 @@ func thBodies(p thProg, ev *[]tt.Op) []func() {
 				var d int
 				fmt.Sscanf(a, "adv%d", &d)
 				vsync.Point()
-				vtime.Advance(time.Duration(d) * time.Millisecond)
+				vtime.Advance(time.Duration(d) * unit)
 			}
 		}
 	}}
@@ -155,13 +162,15 @@ func init() {
 				pb = -1
 			}
 			type job struct {
-				sc []string
-				tc [2]int
+				sc   []string
+				tc   [2]int
+				per  int
+				unit string
 			}
 			var jobs []job
 			for _, sc := range scripts {
 				for _, tc := range [][2]int{{1, 1}, {1, 2}, {2, 1}} {
-					jobs = append(jobs, job{sc, tc})
+					jobs = append(jobs, job{sc: sc, tc: tc})
 				}
 			}
 			// directed longer scripts: triggers in several consecutive periods, a consumer that keeps asking
@@ -173,7 +182,15 @@ func init() {
 				{"call", "adv2", "call", "adv2", "adv4", "call"},
 				{"adv5", "call", "adv4", "call", "adv4", "call"},
 			} {
-				jobs = append(jobs, job{sc, [2]int{1, 3}}, job{sc, [2]int{2, 2}})
+				jobs = append(jobs, job{sc: sc, tc: [2]int{1, 3}}, job{sc: sc, tc: [2]int{2, 2}})
+			}
+			// a period of 900 microseconds: nothing may round it to whole milliseconds
+			for _, sc := range [][]string{
+				{"call", "adv300", "call", "adv300", "call", "adv900"},
+				{"call", "call", "adv450", "call", "adv450", "adv900"},
+				{"call", "adv900", "call", "adv100", "call", "adv1000"},
+			} {
+				jobs = append(jobs, job{sc: sc, tc: [2]int{1, 3}, per: 900, unit: "us"}, job{sc: sc, tc: [2]int{2, 2}, per: 900, unit: "us"})
 			}
 			for _, jb := range jobs {
 				sc := jb.sc
@@ -184,6 +201,9 @@ func init() {
 							continue
 						}
 						p := thProg{Per: 4, Trailing: trailing, Script: sc, NT: tc[0], NN: tc[1]}
+						if jb.per != 0 {
+							p.Per, p.Unit = jb.per, jb.unit
+						}
 						progs++
 						var ev []tt.Op
 						var ferr error
